@@ -12,8 +12,10 @@ import (
 	"hash/fnv"
 	"os"
 	"sort"
+	"strconv"
 	"sync"
 	"testing"
+	"time"
 )
 
 type finding struct {
@@ -176,4 +178,39 @@ func SetProperty(p string) {
 	global.mu.Lock()
 	global.Property = p
 	global.mu.Unlock()
+}
+
+// ---- wall-clock budget ---------------------------------------------------------------------
+// The driver gives every shard a budget (VERIF_BUDGET_S, seconds from process start, a fraction of
+// the shard's watchdog). A property that finds the budget spent returns at once, so the remaining
+// cases are counted as "not run" (class budget.cases-not-run) instead of the shard running into its
+// watchdog: a slow machine means "explored less", never a failure. On an idle machine the budget
+// is never reached, so a run stays a function of the code and VERIF_SEED.
+var started = time.Now()
+
+func budget() time.Duration {
+	f, err := strconv.ParseFloat(os.Getenv("VERIF_BUDGET_S"), 64)
+	if err != nil || f <= 0 {
+		return 0
+	}
+	return time.Duration(f * float64(time.Second))
+}
+
+// OverBudget is asked at the top of every generated case.
+func OverBudget() bool {
+	b := budget()
+	if b == 0 || time.Since(started) < b {
+		return false
+	}
+	ClassN("budget.cases-not-run", 1)
+	return true
+}
+
+// DeadlineAt returns the instant at which frac (>1 allowed) of the budget is spent; zero if there is none.
+func DeadlineAt(frac float64) time.Time {
+	b := budget()
+	if b == 0 {
+		return time.Time{}
+	}
+	return started.Add(time.Duration(float64(b) * frac))
 }
